@@ -39,15 +39,49 @@ theorem bvFromBytes_ok {b : Bytes} {l : Nat} (h1 : 1 ≤ l) (h2 : l ≤ b.length
   have : ¬ (l = 0 ∨ b.length * 8 < l) := by omega
   simp [this]
 
-theorem bvSetBytes_some {v n : BV} {m : Bytes} (h : bvSetBytes v m = some n) :
-    n.len = v.len ∧ n.b.length = v.b.length := by
-  unfold bvSetBytes at h
-  split at h
-  · cases h
-  · rename_i hc
-    cases h
-    simp only [List.length_zipWith, true_and]
-    omega
+theorem bvSetBit_ok (v : BV) (i : Nat) (h : i / 8 < v.b.length) :
+    ∃ v', bvSetBit v i = .ok v' ∧ v'.len = v.len ∧ v'.b.length = v.b.length := by
+  unfold bvSetBit
+  rw [idx_ok v.b (i / 8) h]
+  simp only [bind, Except.bind, pure, Except.pure]
+  split
+  · exact ⟨_, rfl, rfl, rfl⟩
+  · exact ⟨_, rfl, rfl, by simp⟩
+
+/-- the bit loop of `SetBytes` stays inside both slices as long as they have the same length
+    (the loop bound is `len(bv.b)*8`) -/
+theorem bvSetLoop_ok (bs : Bytes) : ∀ (n i : Nat) (v : BV), bs.length = v.b.length → i + n ≤ v.b.length * 8 →
+    ∃ v', bvSetLoop bs n i v = .ok v' ∧ v'.len = v.len ∧ v'.b.length = v.b.length := by
+  intro n
+  induction n with
+  | zero => intro i v _ _; exact ⟨_, rfl, rfl, rfl⟩
+  | succ n ih =>
+    intro i v hl hb
+    unfold bvSetLoop
+    have hi : i / 8 < v.b.length := by omega
+    rw [idx_ok bs (i / 8) (by omega)]
+    simp only [bind, Except.bind]
+    split
+    · obtain ⟨v1, e1, l1, b1⟩ := bvSetBit_ok v i hi
+      rw [e1]
+      obtain ⟨v2, e2, l2, b2⟩ := ih (i + 1) v1 (by omega) (by omega)
+      exact ⟨v2, e2, by omega, by omega⟩
+    · obtain ⟨v2, e2, l2, b2⟩ := ih (i + 1) v (by omega) (by omega)
+      exact ⟨v2, e2, l2, b2⟩
+
+/-- `SetBytes` never panics: a length mismatch is the "invalid length" error, equal lengths give a
+    vector of the same `len` and the same number of bytes -/
+theorem bvSetBytes_ok (v : BV) (m : Bytes) :
+    (m.length ≠ v.b.length ∧ bvSetBytes v m = .ok none) ∨
+    (m.length = v.b.length ∧ ∃ n, bvSetBytes v m = .ok (some n) ∧ n.len = v.len ∧ n.b.length = v.b.length) := by
+  unfold bvSetBytes
+  by_cases hc : m.length = v.b.length
+  · right
+    obtain ⟨r, e, l, b⟩ := bvSetLoop_ok m (v.b.length * 8) 0 v hc (by omega)
+    refine ⟨hc, r, ?_, l, b⟩
+    simp [hc, e, bind, Except.bind, pure, Except.pure]
+  · left
+    exact ⟨hc, by simp [hc, pure, Except.pure]⟩
 
 theorem proximity_go_ok (one other : Bytes) (b : Nat) (hb1 : b ≤ one.length) (hb2 : b ≤ other.length) :
     ∀ fuel i, ∃ r, proximity.go one other b i fuel = .ok r := by
